@@ -94,7 +94,10 @@ CLAIMED = {
             "independent 'literal pieces in order, anchored' definition MatchP, plus the rule-set lemmas in ACLMC) for every (pattern, name) "
             "pair over small alphabets containing '*', '/', '.', newline and regexp metacharacters; the harness replays every pair on the real "
             "acl.Secret.Match. Randomly generated Unicode patterns, names and rule sets answered by the real code are then validated line by "
-            "line by TLC (GlobTrace). Exhaustive inside the bound, sampled beyond it: the right level for a pure function over strings.",
+            "line by TLC (GlobTrace). Exhaustive inside the bound, sampled beyond it: the right level for a pure function over strings. The "
+            "rule-evaluation lemmas (no rules no access; a rule without actions or patterns grants nothing; adding rules never revokes; access "
+            "under a concatenation comes from one part) are proved with TLAPS for rule sets of any length and any matcher (ACLProofs.tla over "
+            "the same definitions ACL.tla instantiates).",
             "Trusts TLC's evaluation of Glob.tla and that Go runes of valid UTF-8 are the code points the spec talks about. Beyond the stated "
             "alphabets/lengths the evidence is sampling.",
             "TLA+ spec as oracle: TLC-generated exhaustive match table replayed on real code + TLC trace validation of random cases",
@@ -148,7 +151,9 @@ CLAIMED = {
             "all interleavings of 2 updaters, 1-2 concurrent Get callers, 1-2 names, install bursts and builder failures. Real updaters on a real "
             "Store are driven sequentially (bursts of 1-3 installs between Gets, builder failures, several updaters, cache write failures) and "
             "concurrently (installer, 2-3 Get goroutines, an updater created mid-flight; race detector on); every builder call, Close and returned "
-            "value is logged and TLC (UpdaterTrace) searches for the placement of the unlogged steps that explains them.",
+            "value is logged and TLC (UpdaterTrace) searches for the placement of the unlogged steps that explains them; a third family holds the "
+            "caller's builder open while installs and a second Get caller arrive. Unbounded: Apalache proves the invariant of the typed twin "
+            "UpdaterInd.tla (WakeNotLost, ReturnFresh) inductive for any number of installs, and TLC checks that Updater refines the twin.",
             "Versions stand for bytes (64-byte recognisable values; the builder checks it got a whole value of the right secret). Quick tier checks "
             "two reduced products (one name / one Get caller); thorough the full one (29.6 M states).",
             "TLC exhaustive check of Updater.tla + TLC trace validation (with schedule search) of recorded sequential and concurrent histories",
@@ -221,7 +226,9 @@ CLAIMED = {
             "timelines (write bursts, idle stretches up to 10 minutes, failures and stalls at any position, writes racing a stalled upload, "
             "cancellation at any moment); every write, request body digest, outcome, clock step, cancellation and return is validated by TLC "
             "(BackupTrace), which places the unlogged steps. A real-time watchdog reports a bubble that never becomes idle (a spinning task), and a "
-            "real-time run through server.New with AWS_ENDPOINT_URL on a loopback listener checks that the task is started and uploads the file.",
+            "real-time run through server.New with AWS_ENDPOINT_URL on a loopback listener checks that the task is started and uploads the file. "
+            "Unbounded: Apalache proves the invariant of the typed twin BackupInd.tla (Consistent, the inductive form of RateLimit) inductive for any "
+            "clock and any number of writes, and TLC checks that Backup refines the twin.",
             "Virtual time; the S3 endpoint is an in-memory HTTP client inside a real aws-sdk s3.Client (one attempt per upload). 'Does not hammer the "
             "database lock' is covered as 'takes no step while waiting'. Quick tier uses a coarser clock grid for the exhaustive check.",
             "TLC exhaustive check of Backup.tla + TLC trace validation of recorded synctest timelines of the real loop (verif hook) + real-time spin watchdog",
